@@ -322,3 +322,38 @@ func vOtherTraffic(name string) {
 		os.MarshalCBOR()
 	}
 }
+
+
+// yieldingSigner / yieldingVerifier: a Signer / Verifier (HSM queue, remote KMS) in front of which the caller waits:
+// other goroutines run between the moment the library hands over the bytes and the moment they are read
+type yieldingSigner struct{ inner Signer }
+
+func (y yieldingSigner) Algorithm() Algorithm { return y.inner.Algorithm() }
+func (y yieldingSigner) Sign(r io.Reader, c []byte) ([]byte, error) {
+	vYield()
+	return y.inner.Sign(r, c)
+}
+
+type yieldingVerifier struct{ inner Verifier }
+
+func (y yieldingVerifier) Algorithm() Algorithm { return y.inner.Algorithm() }
+func (y yieldingVerifier) Verify(c, sig []byte) error {
+	vYield()
+	return y.inner.Verify(c, sig)
+}
+
+// lateSpySigner records what it was handed at the time it gets to look at it
+type lateSpySigner struct {
+	alg     Algorithm
+	sig     []byte
+	content []byte
+	calls   int
+}
+
+func (s *lateSpySigner) Algorithm() Algorithm { return s.alg }
+func (s *lateSpySigner) Sign(r io.Reader, c []byte) ([]byte, error) {
+	vYield()
+	s.calls++
+	s.content = append([]byte{}, c...)
+	return s.sig, nil
+}
